@@ -73,6 +73,20 @@ Theorem C16_tied_read_equal_cplx :
 Proof. intros V s ns h. exact (tied_read_equal_cplx s ns h). Qed.
 Print Assumptions C16_tied_read_equal_cplx.
 
+(* a tie request touching exactly ONE existing group (collect finds the single group g1 with head h1)
+   whose members share a cell: afterwards the requested names and all members of g1 share that cell
+   (then C16_ties_persist carries the equality through every value-phase history) *)
+Theorem C16_set_same_extends_group :
+  forall (V : Type) (s : state V) ns gs' g1 h1,
+    collect ns (vars s) (same s) [] [] = (gs', g1, [h1]) ->
+    (forall x, In x ns -> dmem x (vars s) = true) -> dmem h1 (vars s) = true ->
+    (forall x, In x g1 -> dget x (vars s) = dget h1 (vars s)) ->
+    forall a b, In a (ns ++ g1) -> In b (ns ++ g1) ->
+      dget a (vars (step s (SetSame ns false))) = dget b (vars (step s (SetSame ns false))) /\
+      dget a (vars (step s (SetSame ns false))) <> None.
+Proof. intros V s ns gs' g1 h1. exact (set_same_extends_group ns s gs' g1 h1). Qed.
+Print Assumptions C16_set_same_extends_group.
+
 (* names that share a cell keep reading the same value through every value-phase history *)
 Theorem C16_ties_persist :
   forall (V : Type) (s : state V) h a b,
@@ -80,8 +94,9 @@ Theorem C16_ties_persist :
 Proof. intros V s h a b. exact (ties_persist s h a b). Qed.
 Print Assumptions C16_ties_persist.
 
-(* full statement (tie requests that extend ONE existing group are handled correctly by the code and
-   by the model - covered by the correspondence and the invariant run - but not proved here): *)
+(* full statement over whole histories (proved above per tie request: fresh ties and extension of one
+   group, each followed by arbitrary value-phase histories; the induction over arbitrary interleavings of
+   further config operations is covered by the correspondence + invariant run, not proved): *)
 Definition C16_tied_read_equal_full : Prop :=
   forall (h : list (op Q)), hist_ok tie_safe init h = true ->
     forall g a b, In g (same (run init h)) -> In a g -> In b g ->
